@@ -40,7 +40,7 @@ inductive Kind
   | slice (start : Nat) (stop : Option Nat) (step : Nat)
   | partition (n : Nat) (key : Option Fn)
   | partitionUnique (n : Nat) (key : Fn) (keepLast : Bool)
-  | slidingWindow (n : Nat) (partial : Bool)
+  | slidingWindow (n : Nat) (part : Bool)
   | unique (maxsize : Option Nat) (key : Fn) (hashable : Bool)
   | flatten | pluck (p : Pick) | collect
   | zip (literals : List (Nat × Val))
@@ -72,6 +72,9 @@ inductive Eff
   | emit (v : Val) (md : Meta)
   | set (s : NState)
   | detach                       -- slice._check_end: remove self from every upstream's downstreams
+  | emitThenRelease (v : Val) (md : Meta)
+      -- partition._flush: `yield self._emit(v, md); self._release_refs(md)` — the release waits for the
+      -- awaitables the emission returned (immediate when there are none)
   deriving Inhabited
 
 structure UpdRes where
@@ -166,7 +169,7 @@ def upd (k : Kind) (s : NState) (who : NodeId) (x : Val) (md : Meta) : UpdRes :=
   | .slice start stop step =>
     let fire := s.cnt ≥ start ∧ (s.cnt - start) % step = 0
     let s1 := { s with cnt := s.cnt + 1 }
-    let fin := match stop with | some e => e ≠ 0 ∧ s1.cnt ≥ e | none => False
+    let fin : Bool := match stop with | some e => decide (e ≠ 0 ∧ s1.cnt ≥ e) | none => false
     { effs := (if fire then [.emit x md] else []) ++ [.set s1] ++ (if fin then [.detach] else []) }
   | .partition n key =>
     match (match key with | none => Except.ok Val.none | some kf => kf.eval x) with
@@ -177,7 +180,7 @@ def upd (k : Kind) (s : NState) (who : NodeId) (x : Val) (md : Meta) : UpdRes :=
       if mine.length = n then
         let rest := items.filter (fun it => it.1 ≠ ky)
         let mdAll := flatMd (mine.map (·.2.2))
-        { effs := [.retain md, .set { s with items := rest }, .emit (.tup (mine.map (·.2.1))) mdAll, .release mdAll] }
+        { effs := [.retain md, .set { s with items := rest }, .emitThenRelease (.tup (mine.map (·.2.1))) mdAll] }
       else
         { effs := [.retain md, .set { s with items := items }] }
   | .partitionUnique n key keepLast =>
@@ -198,11 +201,13 @@ def upd (k : Kind) (s : NState) (who : NodeId) (x : Val) (md : Meta) : UpdRes :=
         { effs := [.retain md] ++ rel ++ [.set { s with items := [] }, .emit (.tup (items.map (·.2.1))) mdAll, .release mdAll] }
       else
         { effs := [.retain md] ++ rel ++ [.set { s with items := items }], passRet := false }
-  | .slidingWindow n partial =>
+  | .slidingWindow n part =>
     let win := (s.win ++ [x]).drop ((s.win.length + 1) - n)
-    let mds := s.items ++ [(Val.none, Val.none, md)]
+    -- metadata_buffer is a deque(maxlen=n) too: an append on a full one evicts the oldest (only reachable
+    -- when a downstream exception skipped the popleft below)
+    let mds := (s.items ++ [(Val.none, Val.none, md)]).drop ((s.items.length + 1) - n)
     let s1 := { s with win := win, items := mds }
-    if partial ∨ win.length = n then
+    if part ∨ win.length = n then
       let post := if mds.length = n then
           match mds with
           | h :: t => [Eff.set { s1 with items := t }, Eff.release h.2.2]
@@ -294,7 +299,9 @@ structure State where
   downs : NodeId → List NodeId
   count : Nat → Int := fun _ => 0
   nextTok : Tok := 0
-  pending : List (Tok × NodeId × Meta) := []
+  pending : List (Tok × NodeId × Meta) := []      -- asynchronous consumer invocations not finished
+  doneToks : List Tok := []                       -- consumer invocations that finished normally
+  waiters : List (List Tok × Meta) := []          -- suspended `_flush` coroutines: release `md` once all toks are done
 
 def State.setLoc (S : State) (i : NodeId) (s : NState) : State :=
   { S with loc := fun j => if j = i then s else S.loc j }
@@ -317,7 +324,8 @@ structure Res where
   st : State
   log : List Ev := []
   toks : List Tok := []
-  err : Option Err := none
+  err : Option Err := none          -- raised synchronously: aborts the enclosing frames
+  carried : Option Err := none      -- captured by a coroutine-style update (partition): carried by the returned awaitable
 
 /-- `_retain_refs(metadata, k)` -/
 def retainMd (k : Nat) : Meta → State → State × List Ev
@@ -347,6 +355,10 @@ def Res.fail (S : State) (e : Err) (log : List Ev := []) : Res := { st := S, log
 def detachNode (d : NodeId) (S : State) : State :=
   (S.loc d).ups.foldl (fun S u => S.setDowns u ((S.downs u).filter (· ≠ d))) S
 
+def isCoroutine : Kind → Bool
+  | .partition _ _ => true
+  | _ => false
+
 variable (G : NodeId → Kind)
 
 mutual
@@ -369,7 +381,8 @@ def deliver : Nat → List NodeId → NodeId → Val → Meta → State → Res
     | none =>
       let (S2, l2) := releaseMd md r1.st
       let r2 := deliver f ds n v md S2
-      { st := r2.st, log := r1.log ++ l2 ++ r2.log, toks := r1.toks ++ r2.toks, err := r2.err }
+      { st := r2.st, log := r1.log ++ l2 ++ r2.log, toks := r1.toks ++ r2.toks, err := r2.err,
+        carried := r1.carried <|> r2.carried }
 /-- `downstream.update(x, who=self, metadata=metadata)` -/
 def update : Nat → NodeId → NodeId → Val → Meta → State → Res
   | 0, _, _, _, _, S => Res.fail S .outOfFuel
@@ -388,12 +401,22 @@ def update : Nat → NodeId → NodeId → Val → Meta → State → Res
     | k =>
       let u := upd k (S.loc d) who v md
       let r := runEffs f d u.effs S
-      match r.err with
-      | some _ => { r with log := Ev.arrive d who v md :: r.log }
-      | none =>
-        match u.err with
-        | some e => { st := r.st, log := Ev.arrive d who v md :: r.log ++ [Ev.raised d e], err := some e }
-        | none => { st := r.st, log := Ev.arrive d who v md :: r.log, toks := if u.passRet then r.toks else [] }
+      let res : Res :=
+        match r.err with
+        | some _ => { r with log := Ev.arrive d who v md :: r.log }
+        | none =>
+          match u.err with
+          | some e => { st := r.st, log := Ev.arrive d who v md :: r.log ++ [Ev.raised d e], err := some e, carried := r.carried }
+          | none => { st := r.st, log := Ev.arrive d who v md :: r.log, toks := if u.passRet then r.toks else [],
+                      carried := r.carried }
+      -- `partition.update` is a `gen.coroutine`: an exception raised inside it (by the key function or by
+      -- anything downstream of its flush) is captured in the Future it returns; the caller's loop goes on.
+      if isCoroutine k then
+        match res.err with
+        | some .outOfFuel => res
+        | some e => { res with err := none, toks := [], carried := some e }
+        | none => res
+      else res
 /-- the straight-line body of an update -/
 def runEffs : Nat → NodeId → List Eff → State → Res
   | 0, _, _, S => Res.fail S .outOfFuel
@@ -418,7 +441,22 @@ def runEffs : Nat → NodeId → List Eff → State → Res
       | some _ => r1
       | none =>
         let r2 := runEffs f d es r1.st
-        { st := r2.st, log := r1.log ++ r2.log, toks := r1.toks ++ r2.toks, err := r2.err }
+        { st := r2.st, log := r1.log ++ r2.log, toks := r1.toks ++ r2.toks, err := r2.err,
+          carried := r1.carried <|> r2.carried }
+    | .emitThenRelease v md =>
+      let r1 := emitAt f d v md S
+      match r1.err with
+      | some _ => r1
+      | none =>
+        match r1.carried with
+        | some _ => r1        -- the yielded list contains a failed future: the coroutine raises, nothing is released
+        | none =>
+          let (S1, l1) :=
+            if r1.toks.isEmpty then releaseMd md r1.st
+            else ({ r1.st with waiters := r1.st.waiters ++ [(r1.toks, md)] }, [])
+          let r2 := runEffs f d es S1
+          { st := r2.st, log := r1.log ++ l1 ++ r2.log, toks := r1.toks ++ r2.toks, err := r2.err,
+            carried := r2.carried }
 end
 
 /-- `collect.flush()` called from outside: the awaitables of the emission are dropped. -/
@@ -426,19 +464,34 @@ def flushAt (fuel : Nat) (d : NodeId) (S : State) : Res :=
   let r := runEffs G fuel d (flushProg (S.loc d)) S
   { r with toks := [] }
 
-/-- An asynchronous consumer finishes normally: `_release_when_done` releases its references. -/
+/-- Resume every suspended `_flush` whose awaitables are all done, in registration order. -/
+def wakeWaiters : List (List Tok × Meta) → State → State × List Ev
+  | [], S => ({ S with waiters := [] }, [])
+  | (toks, md) :: ws, S =>
+    if toks.all (fun t => S.doneToks.contains t) then
+      let (S1, l1) := releaseMd md S
+      let (S2, l2) := wakeWaiters ws S1
+      (S2, l1 ++ l2)
+    else
+      let (S2, l2) := wakeWaiters ws S
+      ({ S2 with waiters := (toks, md) :: S2.waiters }, l2)
+
+/-- An asynchronous consumer finishes normally: the sink's done-callback releases its references,
+then the coroutines waiting on it continue. -/
 def sinkDone (tok : Tok) (S : State) : Option (State × List Ev) :=
   match S.pending.find? (·.1 = tok) with
   | none => none
   | some (_, _, md) =>
-    let S1 := { S with pending := S.pending.filter (·.1 ≠ tok) }
+    let S1 := { S with pending := S.pending.filter (·.1 ≠ tok), doneToks := tok :: S.doneToks }
     let (S2, l) := releaseMd md S1
-    some (S2, Ev.sinkDone tok :: l)
+    let (S3, l3) := wakeWaiters S2.waiters S2
+    some (S3, Ev.sinkDone tok :: l ++ l3)
 
-/-- An asynchronous consumer raises: nothing is released. -/
+/-- An asynchronous consumer raises: nothing is released, and whoever awaited it fails too. -/
 def sinkFail (tok : Tok) (S : State) : Option State :=
   match S.pending.find? (·.1 = tok) with
   | none => none
-  | some _ => some { S with pending := S.pending.filter (·.1 ≠ tok) }
+  | some _ => some { S with pending := S.pending.filter (·.1 ≠ tok),
+                            waiters := S.waiters.filter (fun w => !w.1.contains tok) }
 
 end StreamzVerif.Graph
